@@ -458,7 +458,7 @@ def rewrite_eval(ctx: Ctx) -> Evaluator:
             # a small private helper that scans a (constant) rule table is looked through as well
             if fi.module.name == 'hpl.rewrite' and fi.cls is None and fi.name.startswith('_') and depth <= 3 and not recursive(fi.name) \
                     and not any(isinstance(x, (ast.While, ast.With, ast.Try, ast.Yield, ast.YieldFrom)) for x in ast.walk(fi.node)) \
-                    and sum(1 for x in ast.walk(fi.node) if isinstance(x, ast.stmt)) <= 12:
+                    and sum(1 for x in ast.walk(fi.node) if isinstance(x, ast.stmt)) <= 24:
                 return True
             return False
         return Evaluator(ctx.model, inline=pol)
